@@ -246,6 +246,11 @@ def run_check(prop_id: str, tier: str, *, base_seed: int | None = None, budget_s
     def absorb(res: dict):
         job = res.pop("_job")
         i = job["_i"]
+        if res.get("harness_error") == "child died without a result" and getattr(prop, "TIMEOUT_IS_VERDICT", False):
+            # for a property that includes termination, a run that exhausted its memory allowance
+            # (a walk that allocates without end) is the same verdict as one that ran out of time
+            res["timeout"] = True
+            agg["probes_extra"] = agg.get("probes_extra", 0) + 1
         if res.get("timeout"):
             agg["timeouts"] += 1
             agg.setdefault("timeout_seeds", []).append(job.get("seed"))
